@@ -48,6 +48,9 @@ def patch_worker():
     S.__dict__["hasattr"] = AM.sym_hasattr
     S.__dict__["any"] = sym_any
     S.__dict__["all"] = sym_all
+    from pycv.patch import _MathProxy
+    import numpy
+    S.__dict__["np"] = _MathProxy(numpy, {"arange": np_arange, "sqrt": sym.sym_sqrt})
     patch.PATCH_LOG.extend(H.stub_unit_classes([MOD]))
     patch.PATCH_LOG.append(f"{MOD}: len/range/hasattr/any/all shadowed for symbolic-length sequences")
     for name in ("run", "_compute_powertrain_inertia", "_compute_angular_position_and_speed", "_compute_driving_torque",
@@ -1006,9 +1009,260 @@ def job_vars(with_control):
                meta=dict(family="solver-method", method="_compute_powertrain_variables"))
 
 
+
+# =====================================================================================================
+# Solver.run  (C11 time axis, C12 continuation, C16 stop condition, C17 and the history invariant)
+# =====================================================================================================
+
+class SymArange:
+    """np.arange(start, stop, step) -- ASSUMED contract of numpy (tier R): ceil((stop-start)/step) elements
+    start + i*step for step > 0."""
+
+    def __init__(self, env, start, stop, step):
+        self.env = env
+        self.start, self.stop, self.step = (sym.term_of(x) for x in (start, stop, step))
+        c = sym.ctx()
+        self.N = z3.Int(c.fresh_name("N"))
+        c.inputs["N(arange length)"] = self.N
+        c.prove_in_path("call[numpy.arange]:step>0", self.step > 0)
+        Nr = z3.ToReal(self.N)
+        c.assume(z3.And(self.N >= 0,
+                        z3.If(self.stop > self.start,
+                              z3.And((Nr - 1) * self.step < self.stop - self.start, self.stop - self.start <= Nr * self.step),
+                              self.N == 0)))
+        env.ghost["arange"] = self
+
+    def vc_iter(self):
+        return AM._Iter(z3.IntVal(0), self.N, 1, z3.IntVal(0), self.N,
+                        lambda k: SymNum(self.start + z3.ToReal(k) * self.step, "float"))
+
+
+def np_arange(start, stop=None, step=1, *a, **k):
+    if not any(sym.is_sym(x) for x in (start, stop, step)):
+        import numpy
+        return numpy.arange(start, stop, step, *a, **k)
+    return SymArange(sym.ctx().env, start, stop, step)
+
+
+def hist_ok(env, j):
+    """every variable element j records has one sample per instant and its last sample is the current attribute"""
+    st = env.state
+    parts = []
+    for f in REC_FIELDS:
+        parts.append(z3.Implies(adv(env, f, j), z3.And(Sel(st[f"hlen_{f}"], j) == st["tlen"],
+                                                       *[Sel(st[f"last_{f}_{s}"], j) == Sel(st[f"{f}_{s}"], j) for s in ("val", "unit", "none")])))
+    return z3.And(*parts)
+
+
+def run_state_inv(env):
+    """RunInv: what holds of the persisted state after every recorded instant (dict name -> goal)"""
+    n, st = env.n, env.state
+    d = {}
+    d["C17:one-sample-per-instant;last-sample=current-attribute"] = [
+        L.Forall(0, n, lambda j: hist_ok(env, j), name="jh"),
+        z3.Implies(st["ecc"], z3.And(st["hlen_cur"] == st["tlen"], st["last_cur_val"] == st["cur_val"],
+                                     st["last_cur_unit"] == st["cur_unit"], st["last_cur_none"] == st["cur_none"])),
+        st["pwm_key"], st["hlen_pwm"] == st["tlen"], st["last_pwm"] == st["pwm"]]
+    d["C01:coupling-at-the-recorded-instant"] = L.Forall(0, n - 1, lambda j: z3.And(
+        coupling(env, "pos", j), coupling(env, "spd", j), coupling(env, "acc", j)), name="jc")
+    d["all-set"] = L.Forall(0, n, lambda j: z3.And(*[is_set(env, f, j) for f in ("pos", "spd", "acc", "T", "Td", "Tl")]), name="js")
+    d["C02:torques-at-the-recorded-instant"] = [
+        env.si("Td", 0) == motor_law(env, st["pwm"], env.si("spd", 0)),
+        L.Forall(1, n, lambda j: env.si("Td", j) == env.si("Td", j - 1) * Sel(st["eff"], j) * Sel(st["ratio"], j), name="jd"),
+        L.Forall(1, n, lambda j: load_rel(env, j), name="jt"),
+        L.Forall(0, n, lambda j: env.si("T", j) == env.si("Td", j) - env.si("Tl", j), name="jn")]
+    d["C03:not-held=>acceleration=net-torque/Jred"] = L.Via(
+        [z3.Implies(z3.Not(st["locked"]), env.si("acc", n - 1) * env.Jeq_si() == env.si("T", n - 1)),
+         env.Jeq_si() == Jred(env)(n - 1)],
+        z3.Implies(z3.Not(st["locked"]), env.si("acc", n - 1) * Jred(env)(n - 1) == env.si("T", n - 1)))
+    d["C13:held=>all-speeds-and-accelerations-zero"] = L.Forall(
+        0, n, lambda j: z3.Implies(st["locked"], z3.And(env.si("spd", j) == 0, env.si("acc", j) == 0)), name="jl")
+    d["C14:recorded-duty-cycle-in-[-1,1]"] = z3.And(st["pwm"] >= -1, st["pwm"] <= 1)
+    d["solver:Jeq=Jred(n-1)>0"] = z3.And(env.Jeq_si() == Jred(env)(n - 1), env.Jeq_si() > 0,
+                                         env.fac("InertiaMoment", st["Jeq_unit"]) > 0)
+    d["axis:non-empty"] = st["tlen"] >= 1
+    return d
+
+
+RUN_LOOP = f"{Q}.run#0"
+RUN_FRAME = PINST_FRAME + ("tlen", "tlast")
+
+
+@loops.loop_spec(RUN_LOOP, frame=RUN_FRAME, extra_havoc=_havoc_solver_attrs)
+def inv_run(env, i, entry):
+    sync_from_solver(env, env.solver)
+    st = env.state
+    g = env.ghost
+    ar = g["arange"]
+    if entry:
+        g["run_entry"] = st.snapshot()
+        g["run_entry_log"] = len(env.log)
+    e = g["run_entry"]
+    dtq = g["run_dt"]
+    d = dict(run_state_inv(env))
+    d["C11:instants-counted"] = st["tlen"] == e["tlen"] + i
+    # the instant recorded last: unchanged before the first iteration, then the (i-1)-th grid value in dt's unit
+    d["C11:last-instant-is-the-grid-value"] = z3.If(
+        i == 0, z3.And(st["tlast_val"] == e["tlast_val"], st["tlast_unit"] == e["tlast_unit"]),
+        z3.And(st["tlast_val"] == ar.start + z3.ToReal(i - 1) * ar.step, st["tlast_unit"] == AM.unit_idx("Time", dtq.unit)))
+    d["range"] = z3.And(i >= 0, i <= ar.N)
+    d["C13:lock-flag-only-with-a-self-locking-mating"] = z3.Implies(z3.Not(st["self_locking"]), z3.Not(st["locked"]))
+    return d
+
+
+def job_run(fresh, with_stop, with_control):
+    props = ("C01", "C02", "C03", "C11", "C12", "C13", "C14", "C16", "C17")
+
+    def body(c, O):
+        if c.concrete:
+            return
+        env, solver = make_env(c)
+        st = env.state
+        n = env.n
+        Jred(env)
+        for name in ("_compute_powertrain_inertia", "_time_integration"):
+            stub_of(BY_NAME[name], env, solver)
+        stub_of(Vars(), env, solver)
+        dt = H.mkq(c, "TimeInterval", "dt")
+        T = H.mkq(c, "TimeInterval", "T")
+        env.ghost["run_dt"] = dt
+        # preconditions --------------------------------------------------------------------------------
+        c.assume_goal(L.Forall(1, n, lambda j: Sel(st["eff"], j) > 0, name="je"))          # property C02 quantifier
+        c.assume(extp(env, n - 1))                                                          # load on the last element
+        c.assume(AM.ElemRef(env, n - 1)._in(AM.HAS_STRESS))     # ... which is a GearBase gear (run rejects anything else)
+        c.assume_goal(L.Forall(0, n, lambda j: z3.And(z3.Implies(adv(env, "bend", j), adv(env, "force", j)),
+                                                      z3.Implies(adv(env, "contact", j), adv(env, "bend", j))), name="jfl"))
+        c.assume(z3.And(st["pwm"] >= -1, st["pwm"] <= 1))                                    # DCMotor class invariant (C14)
+        c.assume(z3.Implies(z3.Not(Sel(st["T_none"], 0)), is_set(env, "T", 0)))
+        if fresh:
+            c.assume(st["tlen"] == 0)
+            # a powertrain before its first run / after reset: empty histories, initial conditions on the last element
+            c.assume_goal(L.Forall(0, n, lambda j: z3.And(*[Sel(st[f"hlen_{f}"], j) == 0 for f in REC_FIELDS]), name="j0"))
+            c.assume(z3.And(st["hlen_cur"] == 0, z3.Implies(st["pwm_key"], st["hlen_pwm"] == 0)))
+            c.assume(z3.And(is_set(env, "pos", n - 1), is_set(env, "spd", n - 1)))
+            c.assume(z3.Implies(z3.Not(st["self_locking"]), z3.Not(st["locked"])))
+        else:
+            c.assume(st["tlen"] >= 1)
+            for g in run_state_inv(env).values():
+                c.assume_goal(g)
+            c.assume(z3.Implies(z3.Not(st["self_locking"]), z3.Not(st["locked"])))
+        mc = AbsMotorControl(env) if with_control else None
+        stop = AbsStop(env) if with_stop else None
+        sync_to_solver(env, solver)
+        old = env.state.snapshot()
+        env.ghost["old"] = old
+        if c.solver.check() == z3.unsat:
+            O.fail("contract:precondition-satisfiable", props=props)
+            return
+        st_, r = H.call(solver.run, time_discretization=dt, simulation_time=T, motor_control=mc, stop_condition=stop)
+        sync_from_solver(env, solver)
+        DT, TT = sym.term_of(L.num(dt.si())), sym.term_of(L.num(T.si()))
+        if st_ == "raise":
+            if isinstance(r, ValueError) and "time_discretization" in str(r):
+                O.cover("raises:ValueError(dt>=T)")
+                O.prove("raises:ValueError(dt>=T)=>state-unchanged", not env.state.changed_since(old), props=("C11",))
+                return
+            if isinstance(r, ValueError) and "external_torque" in str(r):
+                O.fail("run:load-on-the-last-gear=>accepted", props=("C02",), note=str(r))
+                return
+            if isinstance(r, ValueError) and with_control:
+                O.cover("raises:ValueError(conflicting rules)")
+                return
+            if isinstance(r, TypeError) and "external_torque" in str(r):
+                O.cover("raises:TypeError(load function)")
+                return
+            O.fail("no-unexpected-exception", props=props, note=f"{type(r).__name__}: {r}")
+            return
+        O.cover("returns")
+        g = env.ghost
+        ar = g.get("arange")
+        ex = g.get("loop_exit")
+        e = g.get("run_entry")
+        log = env.log
+        if ar is None or e is None:
+            O.fail("run:loop-over-the-time-grid-reached", props=props)
+            return
+        pre_loop = log[: g["run_entry_log"]]
+        pre_calls = [x[1] if x[0] == "call" else x[0] for x in pre_loop]
+        if fresh:
+            O.prove("fresh:initial-instant-recorded-once-before-the-loop(no stop check at the initial instant)",
+                    pre_calls == ["_compute_powertrain_inertia", "update_time", "_compute_powertrain_variables"],
+                    props=("C11", "C16", "C17"), note=f"{pre_calls}")
+            O.prove("fresh:time-starts-at-0", z3.And(e["tlen"] == 1, e["tlast_val"] * env.fac("Time", e["tlast_unit"]) == 0),
+                    props=("C11",))
+            # C12(b): a rerun after reset must not see the previous run's lock state
+            first_vars_locked = g.get("locked_at_first_instant")
+        else:
+            O.prove("continuation:no-re-initialisation(only the equivalent inertia is recomputed)",
+                    pre_calls == ["_compute_powertrain_inertia"], props=("C12",), note=f"{pre_calls}")
+            ch = [f for f in e.changed_since(old) if f != "Jeq"]
+            O.prove("continuation:state-at-loop-entry=state-left-by-the-previous-run", not ch, props=("C12",), note=f"{ch}")
+            O.prove("continuation:equivalent-inertia-recomputed-to-the-same-value",
+                    e["Jeq_val"] * env.fac("InertiaMoment", e["Jeq_unit"]) == old["Jeq_val"] * env.fac("InertiaMoment", old["Jeq_unit"]),
+                    props=("C12",))
+        # grid (C11/C12): arange start/stop/step against the SI grid
+        t0 = e["tlast_val"] * env.fac("Time", e["tlast_unit"])           # SI time of the last instant before the loop
+        fdt = env.fac("Time", AM.unit_idx("Time", dt.unit))
+        O.prove("grid:step-is-dt", ar.step * fdt == DT, props=("C11", "C07"))
+        O.prove("grid:first-new-instant-is-previous+dt(SI)", ar.start * fdt == t0 + DT, props=("C11", "C12", "C07"))
+        O.prove("grid:stop-is-previous+T+dt(SI)", ar.stop * fdt == t0 + TT + DT, props=("C11", "C12", "C07"))
+        Nr = z3.ToReal(ar.N)
+        K = z3.Int("Ksteps")
+        exactN = z3.And(K >= 1, TT == z3.ToReal(K) * DT)
+        Nr_ = z3.ToReal(ar.N)
+        arange_contract = z3.And(ar.N >= 0, z3.If(ar.stop > ar.start,
+                                                  z3.And((Nr_ - 1) * ar.step < ar.stop - ar.start, ar.stop - ar.start <= Nr_ * ar.step),
+                                                  ar.N == 0))
+        O.prove_via("grid:T=K*dt=>exactly-K-instants-requested",
+                    [ar.step * fdt == DT, ar.start * fdt == t0 + DT, ar.stop * fdt == t0 + TT + DT, arange_contract, fdt > 0, DT > 0],
+                    z3.Implies(exactN, ar.N == K), props=("C11",))
+        for name, gl in run_state_inv(env).items():
+            O.prove(f"ensures:RunInv[{name}]", gl, props=_props_of(name))
+        if ex and ex[0] == "break":
+            O.cover("exit:break")
+            ev = [x for x in log if x[0] == "stop_check"]
+            O.prove("stop:run-ended-early=>condition-true-on-the-last-recorded-instant", ev[-1][1] if ev else False, props=("C16",))
+            O.prove("stop:nothing-recorded-after-the-instant-that-satisfied-the-condition",
+                    bool(ev) and not env.state.changed_since(ev[-1][2]) and log[-1][0] == "stop_check", props=("C16",))
+            O.prove("stop:axis-is-a-prefix-of-the-grid", z3.And(env.state["tlen"] <= e["tlen"] + ar.N), props=("C11", "C16"))
+        else:
+            O.cover("exit:exhausted")
+            stf = env.state
+            O.prove("grid:all-requested-instants-recorded", stf["tlen"] == e["tlen"] + ar.N, props=("C11",))
+            # arithmetic cut: the facts are proved from the path, the goal from the facts alone (nlsat)
+            facts = [z3.Implies(ar.N >= 1, z3.And(stf["tlast_val"] == ar.start + (Nr - 1) * ar.step,
+                                                  env.fac("Time", stf["tlast_unit"]) == fdt)),
+                     ar.start * fdt == t0 + DT, ar.step * fdt == DT, z3.Implies(exactN, ar.N == K)]
+            O.prove_via("grid:T=K*dt=>last-instant=previous+T-and-none-beyond", facts,
+                        z3.Implies(exactN, stf["tlast_val"] * env.fac("Time", stf["tlast_unit"]) == t0 + TT), props=("C11", "C12"))
+            O.prove("grid:instants-carry-dt's-unit", z3.Implies(ar.N >= 1, stf["tlast_unit"] == AM.unit_idx("Time", dt.unit)), props=("C11",))
+
+    tag = ("fresh" if fresh else "continuation") + (",stop" if with_stop else "") + (",control" if with_control else "")
+    return Job(f"solver.run[{tag}]", body, props, functions=[f"{Q}.run"], expect_covers=("returns",),
+               meta=dict(family="solver-run", fresh=fresh, with_stop=with_stop, with_control=with_control))
+
+
+def _props_of(name):
+    for p in ("C01", "C02", "C03", "C13", "C14", "C17"):
+        if name.startswith(p):
+            return (p,)
+    return ("C01", "C02", "C03", "C11", "C12", "C13", "C17")
+
+
+def job_run_body(with_stop, with_control):
+    """One arbitrary iteration of run's loop (the inductive step of the history invariant) is checked inside
+    solver.run[...] as `...run#0:inv-preserved[...]`; this job checks the ORDER of the body and the step relation
+    of C03 on that iteration by running the real loop body once from an arbitrary RunInv state."""
+    return None
+
+
 def all_jobs(exact_tables=None):
     jobs = [job_method(ct) for ct in CONTRACTS]
     jobs.append(job_jred_positive())
     jobs.append(job_vars(False))
     jobs.append(job_vars(True))
+    for fresh in (True, False):
+        for with_stop in (False, True):
+            for with_control in (False, True):
+                jobs.append(job_run(fresh, with_stop, with_control))
     return jobs
